@@ -13,6 +13,12 @@ pub struct SharedSpec {
     pub form: Form,
     pub text: String,
     pub n_operands: usize,
+    /// false: the flat expression is created with `parse_wo_compile` (no constant folding)
+    #[serde(default = "yes")]
+    pub compile: bool,
+}
+fn yes() -> bool {
+    true
 }
 
 #[derive(Clone, Debug, Serialize, Deserialize, PartialEq)]
@@ -116,7 +122,7 @@ const L_BOOL: Lang = Lang {
     lits: &["true", "false"],
 };
 const L_SIM: Lang = Lang {
-    bin: &["+", "-", "*", "+", "-", "*", "^", "/", "%", "+", "*", "-", "+", "*"],
+    bin: &["+", "-", "*", "+", "-", "*", "**", "/", "%", "+", "*", "-", "+", "*", "<", "<=", "**"],
     call: &["min", "max"],
     unary: &["-", "sq", "inc"],
     consts: &["TEN"],
@@ -124,13 +130,36 @@ const L_SIM: Lang = Lang {
     lits: &["0", "1", "2", "3", "5", "7", "12", "100"],
 };
 
+const L_SIM3: Lang = Lang {
+    bin: &["&", "&&", "|", "||", "<<", "<", ">>", ">", "==", "&", "|"],
+    call: &[],
+    unary: &["neg", "tw", "~"],
+    consts: &["ONE"],
+    vars: &["x", "y", "z", "{a b}", "n", "m", "k"],
+    lits: &["0", "1", "2", "3", "5", "7", "12", "100"],
+};
+const L_F64B: Lang = Lang {
+    bin: &["+", "-", "*", "/", "**", "<", "<=", "==", "+", "*"],
+    call: &[],
+    unary: &["dbl", "half", "-", "pad01", "pad17"],
+    consts: &["K"],
+    vars: &["x", "y", "z", "w", "{a b}", "q", "r"],
+    lits: &["1", "2", "0.5", "3.25", "10", "0", "7.", ".5"],
+};
+
 fn lang(kind: Kind) -> &'static Lang {
     match kind {
         Kind::F64 | Kind::F32 => &L_F,
         Kind::Val => &L_VAL,
         Kind::Bool => &L_BOOL,
-        Kind::Sim => &L_SIM,
+        Kind::Sim | Kind::Sim2 => &L_SIM,
+        Kind::Sim3 => &L_SIM3,
+        Kind::F64b => &L_F64B,
     }
+}
+
+pub fn is_sim(kind: Kind) -> bool {
+    matches!(kind, Kind::Sim | Kind::Sim2 | Kind::Sim3)
 }
 
 fn sp(r: &mut Rng, out: &mut String) {
@@ -259,10 +288,13 @@ pub fn damage(r: &mut Rng, text: &str) -> String {
 
 fn pick_kind(r: &mut Rng) -> Kind {
     match r.below(100) {
-        0..=29 => Kind::F64,
-        30..=59 => Kind::Sim,
-        60..=74 => Kind::Val,
-        75..=84 => Kind::F32,
+        0..=21 => Kind::F64,
+        22..=29 => Kind::F64b,
+        30..=44 => Kind::Sim,
+        45..=54 => Kind::Sim2,
+        55..=62 => Kind::Sim3,
+        63..=76 => Kind::Val,
+        77..=85 => Kind::F32,
         _ => Kind::Bool,
     }
 }
@@ -309,13 +341,14 @@ pub fn gen_workload(seed: u64, cfg: GenCfg) -> Workload {
     let mut shared = Vec::new();
     for i in 0..n_shared {
         let mut kind = pick_kind(&mut r);
-        if cfg.with_faults && i == 0 {
-            kind = Kind::Sim; // panic faults need user-code seams
+        if cfg.with_faults && i == 0 && !is_sim(kind) {
+            kind = [Kind::Sim, Kind::Sim, Kind::Sim2, Kind::Sim3][r.below(4)]; // panic faults need user-code seams
         }
         let form = if r.chance(65, 100) { Form::Flat } else { Form::Deep };
         let n_operands = pick_size(&mut r).min(cfg.max_operands);
         let text = gen_text(&mut r, kind, n_operands);
-        shared.push(SharedSpec { kind, form, text, n_operands });
+        let compile = !r.chance(1, 5);
+        shared.push(SharedSpec { kind, form, text, n_operands, compile });
     }
     let mut threads = Vec::new();
     for _ in 0..n_threads {
@@ -380,7 +413,22 @@ pub fn gen_workload(seed: u64, cfg: GenCfg) -> Workload {
         for _ in 0..n_faults {
             let tid = r.below(n_threads);
             let pos = r.below(threads[tid].len() + 1);
-            let op = Op::Eval { j: 0, point: r.below(24) as u32, mode: r.below(4) as u8, delta: 0 };
+            let small0 = shared[0].n_operands <= 40;
+            let op = match r.below(20) {
+                0..=9 => Op::Eval { j: 0, point: r.below(24) as u32, mode: r.below(4) as u8, delta: 0 },
+                10..=12 => Op::Parse {
+                    kind: shared[0].kind,
+                    form: if r.chance(1, 2) { Form::Flat } else { Form::Deep },
+                    text: shared[0].text.clone(),
+                    compile: true,
+                    damaged: false,
+                },
+                13..=14 => Op::Inspect { j: 0 },
+                15..=16 if small0 => Op::Derive { j: 0, which: r.below(256) as u32 },
+                17..=18 if small0 => Op::Convert { j: 0 },
+                19 => Op::SerdeRoundTrip { j: 0 },
+                _ => Op::Eval { j: 0, point: r.below(24) as u32, mode: r.below(4) as u8, delta: 0 },
+            };
             threads[tid].insert(pos, op);
             // earlier faults of this thread that sit behind the insertion point move by one
             for f in faults.iter_mut() {
